@@ -29,7 +29,39 @@ def _with_scenario(pair):
 
 def strata(tier):
     from hypothesis import strategies as st
-    return [(n, st.tuples(s, st.sampled_from([0, 1, 2])).map(_with_scenario)) for n, s in _strata(tier)]
+    from props import c16
+    # safe decorators called with arguments no key can be built for (or whose key is unhashable): the call is a plain evaluation and
+    # must be counted as exactly one miss
+    degraded = [('degraded/' + n, s) for n, s in c16.hostile_strata(tier)[::3]]
+    return degraded + [(n, st.tuples(s, st.sampled_from([0, 1, 2])).map(_with_scenario)) for n, s in _strata(tier)]
+
+
+def check_degraded(case, tr):
+    out = []
+    seen = set()
+    if tr.setup_exc is not None:
+        return out, seen
+    algo = H.effective_algo(case)
+    for i, s in enumerate(tr.steps):
+        if s.kind != 'call' or s.exc is not None or s.pre_info is None or s.post_info is None:
+            continue
+        d = [s.post_info[j] - s.pre_info[j] for j in range(3)]
+        usable = s.key_exc is None
+        if usable:
+            try:
+                hash(s.key)
+            except BaseException:
+                usable = False
+        if not usable:
+            seen.add('degraded')
+            if d != [0, 1, 0]:
+                out.append(Discrepancy('C15/safe/%s/degraded-call-not-counted-as-one-miss' % algo, 'step %d: call %r %r evaluated %d time(s); hit/miss/load moved by %r' % (
+                    i, s.args, s.kwds, s.evals, d)))
+                return out, seen
+        elif sorted(d) != [0, 0, 1]:
+            out.append(Discrepancy('C15/safe/%s/not-exactly-one-counter' % algo, 'step %d: hit/miss/load moved by %r' % (i, d)))
+            return out, seen
+    return out, seen
 
 
 def _strata(tier):
@@ -110,6 +142,13 @@ def check_trace(case, tr):
 
 
 def run_case(case):
+    if case.get('part') == 'b':
+        tr = H.run_history(case)
+        discrs, seen = check_degraded(case, tr)
+        classes = base_classes(case) + ['seen:' + x for x in seen]
+        km = case.get('keymap')
+        nt = ('degraded', case['algo'], case['backend'], km and (km['cls'], km['flat'], km.get('opt')), len(case['ops'])) if 'degraded' in seen else None
+        return discrs, nt, sorted(set(classes))
     tr = H.run_history(with_raising(case))
     discrs, ev, seen = check_trace(case, tr)
     classes = base_classes(case) + ['seen:' + x for x in seen]
@@ -124,6 +163,6 @@ def with_raising(case):
     return case
 
 
-REQUIRED_CLASSES = ['seen:hit', 'seen:miss', 'seen:load', 'seen:reset', 'seen:keep', 'seen:raise', 'all_three_outcomes_and_reset',
+REQUIRED_CLASSES = ['seen:degraded', 'seen:hit', 'seen:miss', 'seen:load', 'seen:reset', 'seen:keep', 'seen:raise', 'all_three_outcomes_and_reset',
                     'eff_algo:no', 'eff_algo:inf', 'module:safe']
 TRIGGERS = {}
